@@ -553,4 +553,20 @@ theorem Un.connect_disconnect' (s : Store K E) (h : Mirror s) (u v : K) (e : E)
     · by_cases hw : w = v
       · subst hw; simp only [if_true]; exact eraseKey_append_absent _ _ _ hvo
       · simp [hw]
+
+theorem dropKey_idem (l : List (K × E)) (k : K) : dropKey (dropKey l k) k = dropKey l k := by
+  unfold dropKey; rw [List.filter_filter]; congr 1; funext p; simp
+
+/-- `isolate` is idempotent: a second call finds nothing to remove and changes no list -/
+theorem Di.isolate_idem' (s : Store K E) (h : Mirror s) (u : K) :
+    ∀ w, ((Di.isolate (Di.isolate s u).1 u).1.get w).out = ((Di.isolate s u).1.get w).out ∧
+         ((Di.isolate (Di.isolate s u).1 u).1.get w).inn = ((Di.isolate s u).1.get w).inn := by
+  have h1 := Di.isolate_spec' s h u
+  have hm : Mirror (Di.isolate s u).1 := Di.step_mirror s (.isolate u) h
+  have h2 := Di.isolate_spec' (Di.isolate s u).1 hm u
+  intro w
+  rw [(h2.2 w).1, (h2.2 w).2, (h1.2 w).1, (h1.2 w).2]
+  by_cases hw : w = u
+  · simp [hw]
+  · simp [hw, dropKey_idem]
 end G
